@@ -201,6 +201,30 @@ pub fn run(case: &Value, _seed: u64) -> Outcome {
         Ok(Err(e)) => o.v("C20", "stable_parse", &api, "mismatch", &feats, &text, format!("printed value {:?} rejected: {}", t2, e)),
         Err(m) => o.v("C20", "stable_parse", &api, "panic", &feats, &t2, m),
     }
+    // FOREIGN fields: a control file whose source paragraph comes first, with a field unknown to the structs in every
+    // paragraph and - in the binary paragraphs - a `Source` field after `Package` (as the stanzas of a Packages file
+    // have it). The lossless reader finds the same source and binaries (first paragraph with Source; paragraphs with
+    // Package), so the typed value is the one of the document without them.
+    if kind == "control" && vs == 1 && case["comments"].as_bool() != Some(true) && case["rev"].as_bool() != Some(true)
+        && case["paras"][0]["role"] == "control_source" {
+        let paras: Vec<&str> = text.split("\n\n").filter(|p| !p.trim().is_empty()).collect();
+        let with_foreign: Vec<String> = paras.iter().enumerate().map(|(n, p)| {
+            let p = p.trim_end_matches('\n');
+            if n == 0 { format!("{}\nX-Foreign: 1\n", p) } else { format!("{}\nSource: value-source\nX-Foreign: {}\n", p, n + 1) }
+        }).collect();
+        let t_f = with_foreign.join("\n");
+        o.evals += 1;
+        let ll_ok = debian_control::lossless::Control::from_str(&t_f).ok().map(|c| (c.source().and_then(|s| s.name()), c.binaries().count()));
+        let plain = debian_control::lossless::Control::from_str(&text).ok().map(|c| (c.source().and_then(|s| s.name()), c.binaries().count()));
+        if ll_ok.is_some() && ll_ok == plain {
+            match guarded(&api, || parse_print(kind, &t_f)) {
+                Ok(Ok(Some(tp))) => if tp != t2 { o.v("C20", "matches_lossless", &api, "mismatch", &feats, &t_f, format!("with foreign fields the typed value prints {:?}, without them {:?}", tp, t2)); },
+                Ok(Ok(None)) => {}
+                Ok(Err(e)) => o.v("C20", "accept", &api, "mismatch", &feats, &t_f, format!("well-formed document (binary paragraphs carrying a Source field) rejected: {}", e)),
+                Err(m) => o.v("C20", "total", &api, "panic", &feats, &t_f, m),
+            }
+        }
+    }
     // field by field what the lossless reader shows for the same text (declared fields; copyright prints files before licences)
     let (a, b) = (lossless_fields(&text), lossless_fields(&t2));
     match (a, b) {
